@@ -202,7 +202,27 @@ def _run(case):
     lab_p = [lab[ps[k]] for k in range(len(ps))]
     res['perm_sites'] = _pipeline(m, None, li, fw, s8_p, lab_p, vm, case.get('dict_radius', False), case.get('site_scale', 1.0))
     res['interleaved'] = _pipeline(m, None, li, fw, s8, lab, vm, case.get('dict_radius', False), case.get('site_scale', 1.0), interleave=True)
+    res['nearface'] = _nearface(case)
     return res
+
+
+def _nearface(case):
+    """atoms a few millionths of a cell below planes k/8 of a cubic cell, so that the translated copy (shift in eighths) has them just below a
+    cell face: positions must move by exactly the shift (modulo whole cells) and the density must be the rolled density"""
+    import random
+    rng = random.Random(case['rseed'] + 5)
+    T, na = 4, 3
+    base = np.array([[[rng.randint(0, 7) / 8 - rng.choice([1e-6, 3e-6, 5e-6, 9e-6, 2e-7]) for _k in range(3)] for _a in range(na)]])
+    coords = base + np.array([[[1e-8 * t * (a + 1)] * 3 for a in range(na)] for t in range(T)])
+    sh = np.array(case['shift8'], dtype=float) / 8
+    cub = [[8, 0, 0], [0, 8, 0], [0, 0, 8]]
+    tb = synth.make_traj(cub, ['Li'] * na, coords, mode='asis')
+    tt = synth.make_traj(cub, ['Li'] * na, coords + sh[None, None, :], mode='asis')
+    pb, pt = np.array(tb.positions), np.array(tt.positions)
+    dev = float(np.abs(((pt - pb - sh[None, None, :] + 0.5) % 1) - 0.5).max())
+    vb, vt = np.array(tb.to_volume(resolution=1.0).data), np.array(tt.to_volume(resolution=1.0).data)
+    rolled = bool(vb.shape == vt.shape == (8, 8, 8) and np.array_equal(np.roll(vb, case['shift8'], axis=(0, 1, 2)), vt))
+    return {'dev': dev, 'rolled': rolled, 'shape': list(vb.shape)}
 
 
 def impl(case):
@@ -293,6 +313,12 @@ def oracle(case, out):
         if not ok:
             fs.append((f'invariance/{kind}:{key}', f'{key} changes under {kind}: {str(got)[:120]} vs expected {str(want)[:120]} (lattice {case["m"]})'))
 
+    nf = out.get('nearface')
+    if nf:
+        if not nf['dev'] <= 1e-9:
+            fs.append(('invariance/trans:positions', f'atoms just below the planes k/8: after a translation by {case["shift8"]}/8 the reported positions are not the translated positions (off by {nf["dev"]} of a cell)'))
+        if not nf['rolled']:
+            fs.append(('invariance/trans:volume', f'atoms just below the planes k/8: the density of the copy translated by {case["shift8"]}/8 is not the rolled density (grid {nf["shape"]})'))
     for kind in ('rot', 'trans', 'perm_atoms', 'perm_sites', 'interleaved'):
         o = out[kind]
         st = np.array(b['states'])
